@@ -39,6 +39,8 @@ def run(model, rep, tier):
     rep.explanation = __doc__.strip()
     from ._common import caches_for
     caches_for(model, rep, 'C02')
+    from ._common import scale_free_tests
+    scale_free_tests(model, rep, [('OnsagerCalc', 'Interstitial', 'diffusivity'), ('OnsagerCalc', 'Interstitial', 'elastodiffusion'), ('GFcalc', 'GFCrystalcalc', 'SetRates')])
     from ._common import inverse_map_placed
     inverse_map_placed(model, rep, [('OnsagerCalc', 'Interstitial', '__init__', 'invmap')])
     rep.not_decided = 'the numerical value of the diffusivity and of the bias-correction term'
